@@ -42,6 +42,9 @@ ASSUMPTIONS = [
     "bad rows of the input hold finite junk in the independence check (NaN/inf in dead channels are not generated)",
     "detection faults are one silent channel, one noisy channel and one top block per snippet, as the statement lists them; "
     "two silent channels or mid-probe incoherent blocks are not generated",
+    "the noisy channel carries the common signal plus noise; the variant whose signal is replaced by noise (tests 'noisy "
+    "over dead' precedence) also lacks the common signal, so it is only placed >= 6 channels away from the silent channel, "
+    "both ends and the block edge, or inside the block",
     "a silent channel that is the last channel of the probe, the channel just below the top block, or inside the block is "
     "accepted as 1 or 3 (the statement gives both answers)",
     "file cases keep the silent channel away from channel 0 and from the top 46 channels so that per-batch expectations "
